@@ -198,6 +198,21 @@ impl<'a, 'ast> Visit<'ast> for BodyV<'a> {
                 syn::Stmt::Expr(ex, _) => (Some(ex), self.src.span(first.span())),
                 _ => (None, (0, 0)),
             };
+            // `loop { let PAT = EXPR else { break }; REST }` (the desugared form of `while let PAT = EXPR { REST }`)
+            if let syn::Stmt::Local(l) = first {
+                if let Some(init) = &l.init {
+                    if let Some((_, div)) = &init.diverge {
+                        let plain_break = match &**div {
+                            syn::Expr::Block(b) => b.block.stmts.len() == 1
+                                && matches!(&b.block.stmts[0], syn::Stmt::Expr(syn::Expr::Break(br), _) if br.label.is_none() && br.expr.is_none()),
+                            _ => false,
+                        };
+                        if plain_break && e.label.is_none() && !matches!(&l.pat, syn::Pat::Type(_)) {
+                            head_break = format!("{{\"stmt\":{},\"let_pat\":{},\"let_expr\":{}}}", sp(self.src.span(first.span())), sp(self.src.span(l.pat.span())), sp(self.src.span(init.expr.span())));
+                        }
+                    }
+                }
+            }
             if let Some(syn::Expr::If(i)) = ex {
                 let plain_break = i.then_branch.stmts.len() == 1
                     && matches!(&i.then_branch.stmts[0], syn::Stmt::Expr(syn::Expr::Break(b), _) if b.label.is_none() && b.expr.is_none());
